@@ -457,12 +457,15 @@ def run_property(pid, tier, seed):
             budget = 20000 if tier == "thorough" else 3000
             if mode in ("cli", "cliorder", "climodel", "clitable"):
                 from . import clisweep
-                foundin, checked, cerr = {"cli": clisweep.sweep, "cliorder": clisweep.sweep_order, "climodel": clisweep.sweep_model,
-                                          "clitable": clisweep.sweep_table}[mode](REPO, budget, seed)
+                if mode == "clitable":
+                    foundin, checked, cerr = clisweep.sweep_table(REPO, budget, seed, aspect=R.ASPECTS.get(pid))
+                else:
+                    foundin, checked, cerr = {"cli": clisweep.sweep, "cliorder": clisweep.sweep_order, "climodel": clisweep.sweep_model}[mode](REPO, budget, seed)
                 if cerr:
                     raise Undecided("the rsbdd binary does not build from this tree (needed for the bounded CLI stand-in): " + cerr[-300:])
                 standins.append({"mode": mode, "label": "bounded - not counted as proved", "budget": budget, "seed": seed, "cases_checked": checked,
-                                 "bound": ("real binary over 36 formula texts (valid, malformed, extreme) x 17 option sets, 9 ordering files, 3 input channels, invalid UTF-8, plus seeded random combinations; requirement: no panic"
+                                 "reports_only": R.ASPECTS.get(pid) if mode == "clitable" else None,
+                                 "bound": ("real binary over 41 formula texts (valid, malformed, extreme) x 17 option sets, 9 ordering files, 3 input channels, invalid UTF-8, plus seeded random combinations; requirement: no panic"
                                            if mode == "cli" else
                                            "real binary, 21 formulas x {-m -t, -m -t -f true}: exactly one satisfying row for a satisfiable formula, none otherwise, and the row satisfies the formula"
                                            if mode == "climodel" else
@@ -479,8 +482,9 @@ def run_property(pid, tier, seed):
                         viol.append((fl, [pid], foundin))
                         failed_tags.append(fl.tag)
                 continue
-            foundin, checked = R.run_mode(rbin, mode, budget, seed)
+            foundin, checked = R.run_mode(rbin, mode, budget, seed, aspect=R.ASPECTS.get(pid))
             standins.append({"mode": mode, "label": "bounded - not counted as proved", "bound": R.BOUNDS.get(mode, ""), "budget": budget,
+                             "reports_only": R.ASPECTS.get(pid),
                              "seed": seed, "cases_checked": checked, "failing_input": foundin})
             if foundin is not None:
                 fl = Failure("bounded-standin", f"bounded stand-in `{mode}` found an input on which the real code disagrees with the reference",
@@ -768,15 +772,20 @@ def last_resort_replay(pid, tier, seed, reason):
         if mode in ("cli", "cliorder", "climodel", "clitable"):
             from . import clisweep
             try:
-                d, _, cerr = {"cli": clisweep.sweep, "cliorder": clisweep.sweep_order, "climodel": clisweep.sweep_model,
-                              "clitable": clisweep.sweep_table}[mode](REPO, int(budget), seed)
+                if mode == "clitable":
+                    d, _, cerr = clisweep.sweep_table(REPO, int(budget), seed, aspect=R.ASPECTS.get(pid))
+                else:
+                    d, _, cerr = {"cli": clisweep.sweep, "cliorder": clisweep.sweep_order, "climodel": clisweep.sweep_model}[mode](REPO, int(budget), seed)
             except Exception:
                 continue
             if d is None:
                 continue
         else:
             try:
-                p = subprocess.run([rbin, "search", mode, budget, str(seed)], capture_output=True, text=True, timeout=600)
+                env_ = dict(os.environ)
+                if R.ASPECTS.get(pid):
+                    env_["REPLAY_ASPECT"] = R.ASPECTS[pid]
+                p = subprocess.run([rbin, "search", mode, budget, str(seed)], capture_output=True, text=True, timeout=600, env=env_)
             except subprocess.TimeoutExpired:
                 continue
             line = (p.stdout.strip().split("\n") or [""])[-1]
